@@ -33,17 +33,20 @@ def linear_model(fstr):
     except Exception:
         return None
     cols = []
-    for a in syms:
-        d = sympy.diff(f, a)
-        if any(d.has(b) for b in syms):
+    try:
+        if f.has(sympy.zoo) or f.has(sympy.nan):
             return None
-        if d == 0:
+        for a in syms:
+            d = sympy.diff(f, a)
+            if any(d.has(b) for b in syms) or d == 0 or d.has(sympy.zoo) or d.has(sympy.nan):
+                return None
+            cols.append(sympy.lambdify([x], d, modules=["numpy"]))
+        off = f.subs({a: 0 for a in syms})
+        if off.has(sympy.zoo) or off.has(sympy.nan) or off.has(sympy.oo):
             return None
-        cols.append(sympy.lambdify([x], d, modules=["numpy"]))
-    off = f.subs({a: 0 for a in syms})
-    if off.has(sympy.zoo) or off.has(sympy.nan):
+        return len(ps), cols, sympy.lambdify([x], off, modules=["numpy"])
+    except Exception:
         return None
-    return len(ps), cols, sympy.lambdify([x], off, modules=["numpy"])
 
 
 def gauss_nll(y, f, s):
